@@ -325,6 +325,7 @@ func runC11(w *World, r *Report) {
 	r.Min("R1", 10)
 	r.Min("R2", 5)
 	r.Min("R3", 3)
+	c11ClockKeepsMonotonicReading(w, r)
 	r.Min("R4", 6)
 	r.Min("R5", 6)
 	r.Min("R6", 2)
@@ -338,4 +339,25 @@ func ownerStruct(v ssa.Value) string {
 		}
 	}
 	return ""
+}
+
+// c11ClockKeepsMonotonicReading: the version and pin retention deadlines are
+// compared with clock.Now(); the real clock returns time.Now() as it is - any
+// normalisation (UTC, Round, Truncate, In, Local, Unix round-trips) strips Go's
+// monotonic reading and makes the 30 s retention depend on wall-clock steps.
+func c11ClockKeepsMonotonicReading(w *World, r *Report) {
+	f := w.Fn("lunar/toolkit-core/clock", "RealClock.Now")
+	if f == nil {
+		r.Undec("R4", "RealClock.Now", token.NoPos, "function not found")
+		return
+	}
+	ok, n := true, 0
+	for _, alt := range ReturnAlts(f, 0) {
+		n++
+		c, isC := peel(alt.Val).(*ssa.Call)
+		if !isC || calleeID(c) != "time.Now" {
+			ok = false
+		}
+	}
+	r.Check(ok && n == 1, "R4", "RealClock.Now/returns-time.Now-unmodified", f.Pos(), "the real clock hands out time.Now() itself, with its monotonic reading")
 }
